@@ -148,7 +148,15 @@ impl Property for C20 {
         };
         let all = dir.join("all"); write_tree(&all);
         let r = run_cli(&dir, &["seq", "all", "-o", "-y"]);
-        if r.timed_out { return cleanup(Outcome::skip("TIMEOUT running the binary")) }
+        if r.timed_out {
+            // "a config whose references form a cycle is rejected instead of recursing … in bounded time": for a cyclic config a run that does not end
+            // (30 s for a job of milliseconds, confirmed by a second attempt) is the violation itself; for any other config a timeout stays inconclusive
+            if p.expect_reject.as_deref().map(|k| k.contains("cycle") || k.contains("loop")).unwrap_or(false) && (api::is_shrinking() || run_cli(&dir, &["seq", "all", "-o", "-y"]).timed_out) {
+                let d = json!({"what": "no exit within 30 s (twice)", "config": config_text(&p), "case": case});
+                return cleanup(Outcome::fail("seq: a cyclic config is not rejected in bounded time", d))
+            }
+            return cleanup(Outcome::skip("TIMEOUT running the binary"))
+        }
         let detail = |what: &str, extra: Value| json!({"what": what, "config": config_text(&p), "case": case, "extra": extra});
         if r.signal { return cleanup(Outcome::fail("seq: the binary died from a signal", detail("crash", json!({"stdout": r.stdout})))) }
         if let Some(kind) = &p.expect_reject {
